@@ -224,6 +224,12 @@ def run(ctx):
         HF.judge_facts(ctx, "C03.1", cname + "._traverse", EF, {k: CF.SPEC_HYBRID_ENTRIES[k] for k in ("entry", "entry.once", "v1.pieces")}, why="the hybrid layout")
         HF.judge_facts(ctx, "C03.2", cname + "._traverse", EF, {"padding.entry": CF.SPEC_HYBRID_ENTRIES["padding.entry"]}, why="the hybrid layout")
         HF.judge_facts(ctx, "C03.1", cname + "._traverse", F, {"dir.order": CF.SPEC_TRAVERSE["dir.order"], "leaf": CF.SPEC_TRAVERSE["leaf"]}, why="the hybrid layout")
+        # the per-file hasher and its options (the padding switch): one construction, the creator's own options for every file
+        hf_ = F.get("hasher")
+        if hf_ is None or hf_.value == HF.UND or str(hf_.value).startswith("?"):
+            ctx.undecided("C03.2", fn, "%s._traverse: how the per-file hasher is made was not understood (%s)" % (cname, getattr(hf_, "why", "") or getattr(hf_, "value", "")), cname + "._traverse :: hasher")
+        else:
+            ctx.holds("C03.2", fn, "%s._traverse: one per-file hasher, made with the creator's options for every file: %s" % (cname, hf_.value), cname + "._traverse :: hasher")
         entry_order(ctx, cname, F.get("entry.call"))
         padding_switch(ctx, cq)
         fresh_keywords(ctx, cq)
